@@ -92,6 +92,22 @@ let step _ cs os =
             out := "BAD\tside=impl\tclause=MessageBuilder::build: header is not the encoding of the built message (lengths, formats) or the payload is not query ++ body" :: !out
         | _ -> failwith "bad bld")
      | None -> ());
+    (* the error-message constructors (cem=<hdr of create_error_message>:<payload ok>:<hdr of
+       create_error_response_like>:<payload ok>:<code>): consistent headers, the text as a UTF-8 body *)
+    (match get_opt of_ "cem" with
+     | Some s ->
+       (match split_on ':' s with
+        | [h1; p1; h2; p2; code] ->
+          let text = Stdlib.List.map (fun _ -> n_of_int 101) c.C01.c_body in
+          let mk id q = Message.build { Message.b_id = id; b_query = q; b_body = text; b_qfmt = n_of_int 0; b_bfmt = n_of_int 3;
+                                        b_notify = false; b_ec = n_of_hex code } in
+          let m1 = mk (n_of_int 0) [] and m2 = mk c.C01.c_hdr.Header.h_id c.C01.c_query in
+          if bytes_of_hex h1 <> Header.encode m1.Message.m_hdr || p1 <> "1" then
+            out := "BAD\tside=impl\tclause=create_error_message: header lengths / fields do not describe the message it serializes" :: !out;
+          if bytes_of_hex h2 <> Header.encode m2.Message.m_hdr || p2 <> "1" then
+            out := "BAD\tside=impl\tclause=create_error_response_like: header lengths / fields do not describe the message it serializes" :: !out
+        | _ -> failwith "bad cem")
+     | None -> ());
     if impl <> model then out := ("DIFF\tfields=" ^ describe_diff impl model) :: !out
   end;
   !out
